@@ -416,6 +416,23 @@ where
 }
 
 #[cfg(feature = "events")]
+fn positional_bad<'a, I: Iterator<Item = &'a EntityAny>>(mk: impl Fn() -> I) -> (usize, bool) {
+    let seq: Vec<Tok> = mk().map(|e| e.raw()).collect();
+    let n = seq.len();
+    let mut bad = false;
+    for k in 0..=(n + 1).min(48) {
+        if mk().nth(k).map(|e| e.raw()) != seq.get(k).copied() { bad = true; }
+        if mk().skip(k).map(|e| e.raw()).collect::<Vec<_>>() != seq.iter().skip(k).copied().collect::<Vec<_>>() { bad = true; }
+        let mut i2 = mk();
+        let first = i2.next().map(|e| e.raw());
+        if first != seq.first().copied() || i2.nth(k).map(|e| e.raw()) != seq.get(k + 1).copied() { bad = true; }
+        if k >= 1 && mk().step_by(k).map(|e| e.raw()).collect::<Vec<_>>() != seq.iter().step_by(k).copied().collect::<Vec<_>>() { bad = true; }
+    }
+    if mk().count() != n || mk().last().map(|e| e.raw()) != seq.last().copied() { bad = true; }
+    (n, bad)
+}
+
+#[cfg(feature = "events")]
 fn observe_world_events(w: &VW) -> Vec<(&'static str, J)> {
     // world-level iterators: full contents plus size_hint after every next()
     let mut out = Vec::new();
@@ -433,6 +450,12 @@ fn observe_world_events(w: &VW) -> Vec<(&'static str, J)> {
             }
         };
         if created { run(&mut w.iter_created()) } else { run(&mut w.iter_destroyed()) }
+        // positional adaptors on the concrete iterator type (nth / skip / step_by / last / count), judged
+        // against its own next()-sequence, at every offset (archetype-list boundaries included)
+        let (n, bad) = if created { positional_bad(|| w.iter_created()) } else { positional_bad(|| w.iter_destroyed()) };
+        if bad {
+            reg::with(|r| r.anomalies.push(format!("wev_positional:{}:{}", name, n)));
+        }
         out.push((name, J::A(toks)));
         out.push((hname, J::A(hints)));
     }
